@@ -174,6 +174,7 @@ def run(tier, seed):
                     if not d <= 1e-11:
                         ck.violation({"clause": "mode_sum", "impl": name, "kind": KINDS[k], "use_static": static}, "sum over the modes of %s differs from %s in %s by %.3g (relative)" % (name, twin, KINDS[k], d), det0)
         ck.sample({"impl": name, "samples": n_samples})
+        ck.cov["traces_validated_against_impl"] += n_samples * 49
 
     # ---- limits between variants ----
     def total(name, has_obl, t, n, o, e, I, M, a, static):
